@@ -104,6 +104,51 @@ def special_c11(tier, seed, th, chk):
         return [r]
 
 
+BORROW_ERRORS = {"E0597", "E0502", "E0499", "E0505", "E0506", "E0716", "E0515", "E0521", "E0712", "E0713", "E0503", "E0495", "E0621", "E0623"}
+
+
+def special_c04(tier, seed, th, chk):
+    """Static half of C04 (NOT a proof; a regression corpus): minimal client programs that let a field outlive /
+    alias-mutate its buffer or array must be rejected by the borrow checker when compiled against the current
+    tree; a few usage patterns must keep compiling."""
+    import subprocess, os, glob, re, time
+    t0 = time.time()
+    binp, err = chk.build_harness("dev")
+    if binp is None:
+        return [{"family": "static-corpus", "variant": "dev", "build_failed": True, "log": err, "fails": [], "stats": {}, "samples": {}, "n": 0, "wall": 0}]
+    deps = os.path.join(os.path.dirname(binp), "deps")
+    rlibs = sorted(glob.glob(os.path.join(deps, "libhttparse-*.rlib")), key=os.path.getmtime)
+    fails, samples, n = [], {}, 0
+    if not rlibs:
+        fails.append("FAIL C04 model | no httparse rlib found to compile the static corpus against | static | " + deps)
+    else:
+        outdir = os.path.join(chk.BUILD, "static_c04")
+        os.makedirs(outdir, exist_ok=True)
+        for kind in ("reject", "accept"):
+            for prog in sorted(glob.glob(os.path.join(chk.VERIF, "static_c04", kind, "*.rs"))):
+                n += 1
+                r = subprocess.run(["rustc", "--edition", "2021", "--crate-type", "bin", "--emit=metadata", "--cfg", "httparse_verif",
+                                    "--extern", "httparse=" + rlibs[-1], "-L", "dependency=" + deps, prog,
+                                    "-o", os.path.join(outdir, os.path.basename(prog) + ".rmeta")],
+                                   capture_output=True, text=True, env=chk.ENV)
+                codes = set(re.findall(r"error\[(E\d+)\]", r.stderr))
+                name = "%s/%s" % (kind, os.path.basename(prog))
+                if kind == "reject":
+                    if r.returncode == 0:
+                        fails.append("FAIL C04 hard | a client program that keeps a field / the headers slice past its buffer or array (or mutates it while live) is ACCEPTED by the compiler | static %s | rustc exit 0" % name)
+                    elif not (codes & BORROW_ERRORS):
+                        fails.append("FAIL C04 model | corpus program is rejected, but not by the borrow checker (API change?) | static %s | %s" % (name, r.stderr[-300:].replace("\n", " ")))
+                    else:
+                        samples.setdefault("static." + kind, "%s -> %s" % (name, sorted(codes)))
+                else:
+                    if r.returncode != 0:
+                        fails.append("FAIL C04 hard | a usage pattern that must keep compiling is rejected | static %s | %s" % (name, r.stderr[-300:].replace("\n", " ")))
+                    else:
+                        samples.setdefault("static." + kind, name + " -> compiles")
+    return [{"family": "static-corpus", "variant": "dev", "n": n, "fails": fails, "nfails": len(fails),
+             "stats": {"cases.static_programs": n, "nontrivial.static": n}, "samples": samples, "wall": time.time() - t0, "cached": False}]
+
+
 def large_stage(tier, seed, th, chk):
     """G10: adversarial large inputs (runs of folds, ignored lines, whitespace, near-miss SIMD blocks, many
     headers, …; 32 KiB/256 KiB quick, 128 KiB/1 MiB thorough) under dev (opt 1 + debug assertions), release and
